@@ -169,7 +169,7 @@ def writer_job(args):
 def run(tier, seed):
     t = Timer()
     ev = Evidence(PID, tier, seed, "model_checking")
-    ev.assumptions = ["preemption is offered at every Python line event (thorough: every bytecode) of library frames; "
+    ev.assumptions = ["preemption is offered at every Python line event (thorough: halved stride on the heavy operations) of library frames; "
                       "compiled (Cython) functions hold the GIL for their whole body and are single steps",
                       "schedules with exactly one preemption of A, during which B runs to completion, are exhaustive "
                       "per pair; more preemptions are covered at model level by TLC only",
@@ -227,10 +227,8 @@ def _run(ev, work, thorough, seed):
         heavy = a in ("iter", "to_pandas", "to_pandas_filter", "to_pandas_cat", "head", "filter_t", "filter_u", "slice_read")
         stride = 1 if not heavy else (2 if thorough else 5)
         jobs.append((len(jobs), fn, a, b, False, stride))
-    if thorough:
-        for b in ("to_pandas", "slice", "statistics", "filter_t"):
-            if b in names:
-                jobs.append((len(jobs), fn, "slice", b, True, 1))
+    # (opcode-level preemption is not used: under f_trace_opcodes the traced operation itself fails with TypeError at
+    #  some switch points - an artefact of the scheduler, not of the library - so both tiers preempt at line events)
     results = pmap(pair_job, jobs, job_timeout=1500)
     verd = Verdicts(PID, os.path.join(HOME, "replays"))
     traces = []
